@@ -23,7 +23,7 @@ pub fn def() -> PropDef {
         ],
         bound: |t| match t {
             Tier::Quick => json!({"families": ["S12<=3: all ordered pairs, default parameters, memory", "large family (7-entry base, <=2 substitutions): base<->variant, default, memory", "all pairs of subsets of 8 flat keys under (max_set_size 1, split_factor 3)", "S12<=2 non-trivial pairs: parameters (1,3),(2,2),(3,4) in memory, default on file-backed"], "message_bound": "4 + 2*(|SA|+|SB|)"}),
-            Tier::Thorough => json!({"families": ["S16<=3: all ordered pairs, default, memory", "S24<=2: all ordered pairs, all four parameter settings, memory; non-trivial pairs default on file", "large family (7-entry base, <=2 substitutions): all ordered pairs default memory; base<->variant all parameters both backends", "all pairs of subsets of 9 flat keys under (1,3), (3,4), (2,2)"], "message_bound": "4 + 2*(|SA|+|SB|)"}),
+            Tier::Thorough => json!({"families": ["flat keys: all 256^2 pairs of subsets of 8 under settings (1,4) (1,5) (2,3) (4,2) (5,3)", "S16<=3: all ordered pairs, default, memory", "S24<=2: all ordered pairs, all four parameter settings, memory; non-trivial pairs default on file", "large family (7-entry base, <=2 substitutions): all ordered pairs default memory; base<->variant all parameters both backends", "all pairs of subsets of 9 flat keys under (1,3), (3,4), (2,2)"], "message_bound": "4 + 2*(|SA|+|SB|)"}),
         },
         run,
         replay,
@@ -243,6 +243,15 @@ fn run(ctx: &Ctx, report: &mut Report) {
             for a in &flat {
                 for b in &flat {
                     for cfg in [(1usize, 3usize), (3, 4), (2, 2)] {
+                        exec(report, a, b, cfg, BackendKind::Mem);
+                    }
+                }
+            }
+            // further legal settings (wider splits, larger item sets) on all pairs of subsets of 8
+            let flat8 = flat_states(8);
+            for a in &flat8 {
+                for b in &flat8 {
+                    for cfg in [(1usize, 4usize), (1, 5), (2, 3), (4, 2), (5, 3)] {
                         exec(report, a, b, cfg, BackendKind::Mem);
                     }
                 }
